@@ -182,3 +182,11 @@ def portfolio_nodes(spec):
 def portfolio_term(spec, G='G'):
     return '(build_portfolio %s %s %s)' % (G, C.lst([C.s(n) for n in portfolio_nodes(spec)]),
                                            C.lst([asset_term(a, spec, G) for a in spec['assets']]))
+
+
+def freq_td_(f):
+    """pandas Timedelta of a frequency string like 'h', '2h', '30min', 'd'"""
+    try:
+        return pd.Timedelta(1, f)
+    except Exception:
+        return pd.Timedelta(f)
